@@ -24,7 +24,11 @@ def decorate(ctx, inst, n):
         inst.insert(r.randint(0, len(inst)), "t")
     if n % 4 == 1:   # a Build() somewhere inside the installation history
         inst.insert(r.randint(0, len(inst)), "b")
-    return [x.upper() if (r.random() < 0.3 and x != "b") else x for x in inst]
+    if n % 6 == 3:   # an interceptor that runs ANOTHER parser of the same builder before every statement
+        inst.insert(r.randint(0, len(inst)), "n")
+    if n % 5 == 2:   # an interceptor (innermost) that takes over `while` and parses the body with ParseStatement()
+        inst.append("w")
+    return [x.upper() if (r.random() < 0.3 and x not in "bnw") else x for x in inst]
 
 
 def validate(ctx, items, which=None):
@@ -53,7 +57,7 @@ def validate(ctx, items, which=None):
             continue
         ow = rw["obs"]
         rec = obs_of(ow)
-        rec.update(id=it["id"], inst=[x.lower() for x in it["inst"] if x.lower() != "b"], tolerant=it.get("tolerant", False), smart=it.get("smart", False),
+        rec.update(id=it["id"], inst=[x.lower() for x in it["inst"] if x.lower() not in "bnw"], tolerant=it.get("tolerant", False), smart=it.get("smart", False),
                    plog=[dict(kind=e["kind"], id=e["id"], ph=e["ph"], tok=e["tok"], ctx=e["ctx"], infn=e["infn"]) for e in ow["plog"]],
                    tlog=[dict(id=e["id"], ph=e["ph"], l=e["l"], c=e["c"], ch=e["ch"]) for e in ow["tlog"]],
                    ctx=ow["ctx"], infn=ow["infn"], base=obs_of(rb["obs"]))
@@ -110,9 +114,10 @@ def build_items(ctx, quick):
     ctx.rng.shuffle(mal)
     ctx.rng.shuffle(mut)
     mal = mal[:1000 if quick else 10000] + mut[:3000 if quick else 40000]
+    mal += ["#!/usr/bin/env xjs\nlet a = 1\nf(a)", "#! x\na + b", "#!\n"] + ["#!x\n" + t for t in mut[:40]]
     for n, text in enumerate(mal):
         k = ctx.rng.randint(1, 8)
-        inst = [ctx.rng.choice("sertSERTb") for _ in range(k)]
+        inst = [ctx.rng.choice("sertSERTbn") for _ in range(k)]
         tol, smart = ctx.rng.choice([(False, False), (True, False), (False, True), (True, True)])
         items.append(dict(id="x%d" % n, text=text, inst=inst, tolerant=tol, smart=smart, builds=1 + n % 2))
     return items, nvalid, len(mf)
